@@ -288,6 +288,30 @@ class SetV(Value):
                 self.member = lambda y: z_and(old(y), z_not(z_eq(y, c)))
                 return c
             return PyFunc(pop, 'set.pop')
+        if name == 'add':
+            def add(interp, x):
+                # s.add(x) on a set given by an explicit list of members (in place)
+                if isinstance(self, ItemSet):
+                    self.cands = self.cands + [x]
+                    cands = self.cands
+                    self.member = lambda y: z_or(*[z_eq(y, c) for c in cands])
+                    return None
+                if self.items is None:
+                    raise Unsupported('set.add on a symbolic set')
+                if isinstance(x, SSeq) or (isinstance(x, tuple) and any(is_z3(e) for e in x)):
+                    if self.items:
+                        raise Unsupported('set.add of a symbolic sequence to a set of scalars')
+                    self.__class__ = ItemSet            # {seq, ...}: members compared symbolically from now on
+                    self.cands, self.items = [x], None
+                    cands = self.cands
+                    self.member = lambda y: z_or(*[z_eq(y, c) for c in cands])
+                    return None
+                if not any(concrete(z_eq(x, y)) is True for y in self.items):
+                    self.items = self.items + [x]
+                items = self.items
+                self.member = lambda y: z_or(*[z_eq(y, c) for c in items])
+                return None
+            return PyFunc(add, 'set.add')
         raise Unsupported(f'set.{name}')
 
     def py_iter(self, interp, expect=None):
